@@ -40,11 +40,12 @@ type faultDest interface {
 
 func (f *faultWriter) accepted() []byte { return f.acc }
 
-func newFaultDest(k int, short bool, readFrom bool) faultDest {
+func newFaultDest(k int, mode int, readFrom bool) faultDest {
+	fw := faultWriter{budget: k, short: mode == 1, full: mode == 2}
 	if readFrom {
-		return &faultReaderFromWriter{faultWriter{budget: k, short: short}}
+		return &faultReaderFromWriter{fw}
 	}
-	return &faultWriter{budget: k, short: short}
+	return &fw
 }
 
 // fault kind (artifact...) k mode [destkind]
@@ -55,9 +56,9 @@ func opFault(a []Sx) (res Sx) {
 		}
 	}()
 	kind, art := string(a[0].B), a[1].L
-	k, short := a[2].Int(), a[3].Int() != 0
+	k, mode := a[2].Int(), a[3].Int()
 	readFrom := len(a) > 4 && a[4].IsSym("readfrom")
-	d := newFaultDest(k, short, readFrom)
+	d := newFaultDest(k, mode, readFrom)
 	var err error
 	cnt := int64(-1)
 	switch kind {
@@ -115,7 +116,10 @@ func genC19(r *Rng, tier string) []Case {
 			}
 		}
 		for _, k := range ks {
-			for mode := 0; mode < 2; mode++ {
+			for mode := 0; mode < 3; mode++ {
+				if mode == 2 && k%3 != 0 { // mode 2 (full count together with the error): every third position
+					continue
+				}
 				for _, dk := range dests {
 					cs = append(cs, Case{"fault", []Sx{Sym(kind), L(art...), Zi(int64(k)), Zi(int64(mode)), Sym(dk)}})
 				}
